@@ -165,6 +165,7 @@ func (p *c09) Cases(tier string, emit func(interface{})) {
 	for _, st := range []string{"ref", "reflect-map", "node-map"} {
 		emit(c09Case{Schema: "choicewhen", Part: "bfs", Store: st, Source: "json", Depth: c09Depth(tier) + 1})
 	}
+	emit(c09Case{Part: "structslice"})
 	// nodeutil.Reflect over Go structs does not implement choices (every read fails with
 	// "OnChoose not implemented"): only nodeutil.Node serves the struct-backed stores here
 	for _, st := range append(append([]string{}, store.Impls...), "node-struct", "node-structmap", "node-structembed") {
@@ -324,6 +325,9 @@ func (p *c09) Run(raw json.RawMessage) eng.Result {
 	if c.Schema != "" {
 		schema, alphabet = c.Schema, c09Alphabets[c.Schema]
 	}
+	if c.Part == "structslice" {
+		return c09StructSlice()
+	}
 	m := model.SharedSchema(schema)
 	newInst := func() *c09Inst { return &c09Inst{env: newEnv(schema, c.Store)} }
 	if c.Part == "history" {
@@ -354,5 +358,114 @@ func (p *c09) Run(raw json.RawMessage) eng.Result {
 	}
 	res.Outcomes = []string{fmt.Sprintf("%s:%s:closed=%v", c.Store, c.Source, r.Closed)}
 	res.Sample = map[string]interface{}{"store": c.Store, "source": c.Source, "states": r.States, "transitions": r.Transitions, "depth": r.MaxDepth, "closed": r.Closed}
+	return res
+}
+
+// part structslice: a hand-written Go struct served by nodeutil.Node WITHOUT IgnoreEmpty, the cases of
+// its choice are a list in a slice, a leaf-list in a slice, a container behind a pointer and a map-backed
+// list. Every sequence of up to 5 upserts over the cases: after each one the Go object holds data of one
+// case only (a non-nil empty slice or map counts as what the library itself takes it for: it must not
+// make the library report the case) and the library's read shows exactly the case written last.
+type c09SSPort struct{ N string }
+type c09SSBox struct{ X string }
+type c09SSObj struct {
+	Port []*c09SSPort
+	Tags []string
+	Box  *c09SSBox
+	Peer map[string]*c09SSPort
+	O    string
+}
+
+func init() {
+	model.Schemas["structslice"] = `module structslice { namespace "urn:ss"; prefix ss; revision 0;
+  choice ch {
+    case a { list port { key n; leaf n { type string; } } }
+    case t { leaf-list tags { type string; } }
+    case b { container box { leaf x { type string; } } }
+    case p { list peer { key n; leaf n { type string; } } }
+  }
+  leaf o { type string; }
+}`
+}
+
+func c09StructSlice() eng.Result {
+	var res eng.Result
+	ss := &sigSet{res: &res}
+	m := model.SharedSchema("structslice")
+	docs := map[string]string{"port": `{"port":[{"n":"p"}]}`, "tags": `{"tags":["x","y"]}`, "box": `{"box":{"x":"y"}}`, "peer": `{"peer":[{"n":"q"}]}`}
+	names := []string{"port", "tags", "box", "peer"}
+	var seqs [][]string
+	var rec func(prefix []string)
+	rec = func(prefix []string) {
+		if len(prefix) > 0 {
+			seqs = append(seqs, append([]string{}, prefix...))
+		}
+		if len(prefix) == 4 {
+			return
+		}
+		for _, n := range names {
+			if len(prefix) > 0 && prefix[len(prefix)-1] == n {
+				continue
+			}
+			rec(append(prefix, n))
+		}
+	}
+	rec(nil)
+	for _, seq := range seqs {
+		obj := &c09SSObj{O: "o"}
+		b := node.NewBrowser(m, &nodeutil.Node{Object: obj})
+		res.States++
+		for i, step := range seq {
+			var err error
+			var out string
+			fr, msg, pan := eng.Recover(func() {
+				var n node.Node
+				if n, err = nodeutil.ReadJSON(docs[step]); err != nil {
+					return
+				}
+				if err = b.Root().UpsertFrom(n); err != nil {
+					return
+				}
+				out, err = nodeutil.WriteJSON(b.Root())
+			})
+			res.Evals++
+			res.Transitions++
+			res.Nontriv++
+			prev := "none"
+			if i > 0 {
+				prev = seq[i-1]
+			}
+			site := fmt.Sprintf("C09/structslice/%s-after-%s", step, prev)
+			desc := fmt.Sprintf("upserts %v (step %d)", seq, i+1)
+			if pan {
+				ss.add(site+"/panic:"+fr, desc+": "+msg)
+				break
+			}
+			if err != nil {
+				ss.add(site+"/error-on-valid", desc+": "+err.Error())
+				break
+			}
+			holds := map[string]bool{"port": len(obj.Port) > 0, "tags": len(obj.Tags) > 0, "box": obj.Box != nil, "peer": len(obj.Peer) > 0}
+			for _, n := range names {
+				if holds[n] != (n == step) {
+					ss.add(site+"/two-cases-hold-data", fmt.Sprintf("%s: object holds %s=%v, written last: %s; object %+v", desc, n, holds[n], step, *obj))
+				}
+			}
+			var doc map[string]interface{}
+			if jerr := json.Unmarshal([]byte(out), &doc); jerr != nil {
+				ss.add(site+"/read/not-json", desc+": "+out)
+				break
+			}
+			for _, n := range names {
+				if _, shown := doc[n]; shown != (n == step) {
+					ss.add(site+fmt.Sprintf("/read/%s-shown-%v", map[bool]string{true: "written-case", false: "other-case"}[n == step], shown), fmt.Sprintf("%s: read gives %s", desc, out))
+				}
+			}
+			if doc["o"] != "o" {
+				ss.add(site+"/read/node-outside-the-choice-lost", fmt.Sprintf("%s: read gives %s", desc, out))
+			}
+		}
+	}
+	res.Outcomes = []string{"structslice"}
 	return res
 }
